@@ -97,7 +97,7 @@ def observed_order(root: str, listing):
 
 def coq_root(root: str) -> str:
     """components of the scanned path as PurePosixPath compares them (str(path).split('/'))"""
-    return H.coq_list(H.coq_text(p) for p in str(Path(root)).split("/"))
+    return H.coq_list(H.coq_text(p) for p in str(Path(root) / "x").split("/")[:-1])
 
 
 def coq_mt(r):
@@ -315,7 +315,7 @@ class Prop:
                     tree = self._from_shape(rng, shape, list(lab))
                     for sort in (True, False):
                         yield dict(kind="load", sort=sort, tree=tree, how=rng.choice(HOWS))
-        nrand = 220 if tier == "quick" else 3000
+        nrand = 220 if tier == "quick" else 2000
         for i in range(nrand):
             n = rng.choice([3, 5, 8, 12, 18, 25, 40])
             r = rng.random()
@@ -347,6 +347,19 @@ class Prop:
             rng.shuffle(keys)
             data = [[k, ("nm" if (k == "n" and rng.random() < 0.85) else rng.choice(vals))] for k in keys]
             yield dict(kind="deser", data=data)
+        yield from self._sort_descs(tier, rng)
+
+    def _sort_descs(self, tier, rng):
+        n = 60 if tier == "quick" else 500
+        for i in range(n):
+            g = list(rng.choice(NAME_GROUPS)) + [rng.choice(ALL_NAMES) for _ in range(rng.randint(0, 4))]
+            k = rng.randint(0, 12)
+            names = [rng.choice(g) for _ in range(k)]          # duplicates on purpose: stability
+            items = [[nm, j] for j, nm in enumerate(names)]
+            if i % 2:
+                yield dict(kind="sort", items=items)
+            else:
+                yield dict(kind="pathsort", parent=rng.choice(["/tmp/x", "/", "rel/dir", "/a/B/\u00e4"]), items=items)
 
     def shrink_candidates(self, desc):
         if desc.get("kind") != "load":
@@ -373,7 +386,35 @@ class Prop:
             return self.run_load(desc)
         if k == "entry":
             return self.run_entry(desc)
+        if k in ("sort", "pathsort"):
+            return self.run_sort(desc)
         return self.run_deser(desc)
+
+    def run_sort(self, desc) -> Case:
+        """CPython's sorted() with the two key functions of fs.py against the model's stable insertion sort."""
+        from operator import attrgetter, itemgetter
+        from pathlib import PurePosixPath
+
+        items = desc["items"]
+        # names containing "/" cannot be path components; the generator has none
+        if desc["kind"] == "sort":
+            objs = [FileSystemEntry(nm, size=tag, mdate=0) for nm, tag in items]
+            res = [[o.name, o.size] for o in sorted(objs, key=attrgetter("name"))]
+            coq = f"(CSort {H.coq_list(f'({H.coq_text(nm)}, {H.z(tag)})' for nm, tag in items)})"
+        else:
+            parent = PurePosixPath(desc["parent"])
+            pairs = [(parent / nm, tag) for nm, tag in items]
+            res = [[c.name, tag] for c, tag in sorted(pairs, key=itemgetter(0))]
+            comps = str(parent / "x").split("/")[:-1]     # the components every child path starts with
+            coq = (f"(CPathSort {H.coq_list(H.coq_text(c) for c in comps)} "
+                   f"{H.coq_list(f'({H.coq_text(nm)}, {H.z(tag)})' for nm, tag in items)})")
+        fail = None
+        if sorted(map(tuple, res), key=lambda x: x[1]) != [tuple(x) for x in items]:
+            fail = f"sort: not a permutation: {res!r}"
+        elif any(cps(a[0]) > cps(b[0]) or (a[0] == b[0] and a[1] > b[1]) for a, b in zip(res, res[1:])):
+            fail = f"sort: not sorted by code points / not stable: {res!r}"
+        return Case(desc=desc, coq_input=coq, impl_obs=res, oracle_fail=fail, nontrivial=len(items) >= 2,
+                    key=H.digest(desc), stats=dict(kind=desc["kind"], n=len(items), dup=len({n for n, _ in items}) < len(items)))
 
     def run_load(self, desc) -> Case:
         sort = bool(desc["sort"])
